@@ -143,3 +143,36 @@ def closure_bodies(fx, call):
     for q in call.closures:
         out.extend(fx.by_q.get(q, []))
     return out
+
+
+def reads_field(body, field, adt_suffix=None):
+    """Does the body (or its closures) read a place with projection `.field@...adt`?"""
+    pat = "." + field + "@"
+    for b in tree(body):
+        for i, j, s in b.stmts():
+            if s["k"] != "assign":
+                continue
+            for p in rv_places(s["rv"]):
+                for el in pl_proj(p):
+                    if isinstance(el, str) and el.startswith(pat) and (adt_suffix is None or el.endswith(adt_suffix)):
+                        return True
+        for bl in b.blocks:
+            t = bl["term"]
+            if t["k"] == "switch":
+                p = op_place(t["op"])
+                if p is not None:
+                    for el in pl_proj(p):
+                        if isinstance(el, str) and el.startswith(pat):
+                            return True
+    return False
+
+
+def writes_field(body, field):
+    """(bb, stmt) of assignments whose destination has projection `.field@`."""
+    out = []
+    pat = "." + field + "@"
+    for i, j, s in body.stmts():
+        if s["k"] == "assign" and not isinstance(s["place"], int):
+            if any(isinstance(el, str) and el.startswith(pat) for el in s["place"][1:]):
+                out.append((i, s))
+    return out
